@@ -55,6 +55,30 @@ Definition s_sp_col_start_from_index (self_ : (sparse A)) (col_index_ : (list na
           Ok (col_start_, sum_)) (col_start_, sum_) in
   upd col_start_ (sp_cols self_) sum_.
 
+(* src/sparse.rs : impl < T : Copy + Number + std :: fmt :: Debug > Sparse < T > :: fn get *)
+Definition s_sp_get (self_ : (sparse A)) (row_ : nat) (col_ : nat) : res (option (T A)) :=
+  if ((sp_rows self_) <=? row_)%nat
+  then (Panic Guard)
+  else (if ((sp_cols self_) <=? col_)%nat
+       then (Panic Guard)
+       else (if ((length (sp_col_start self_)) <=? col_)%nat
+            then (Panic Guard)
+            else (let* col_index_ := sp_col_index self_ in
+                 let* o6 := for_ret 0 (sp_nonzero self_) (fun k_ (_ : unit) =>
+                         let* x2 := rd (sp_row_index self_) k_ in
+                         let* c4 := if (x2 =? row_)%nat
+                             then (let* x3 := rd col_index_ k_ in
+                                  Ok (x3 =? col_)%nat)
+                             else (Ok false) in
+                         if c4
+                         then (let* x5 := rd (sp_val self_) k_ in
+                              Ok (inr (Some x5)))
+                         else (Ok (inl tt))) tt in
+                 match o6 with
+                 | inl _ => Ok None
+                 | inr r7 => Ok r7
+                 end))).
+
 (* src/sparse.rs : impl < T : Copy + Number + std :: fmt :: Debug > Sparse < T > :: fn scale *)
 Definition s_sp_scale (self_ : (sparse A)) (value_ : (T A)) : res (sparse A) :=
   for_ 0 (sp_nonzero self_) (fun k_ (self_ : (sparse A)) =>
@@ -161,5 +185,32 @@ Definition s_sp_to_dense (self_ : (sparse A)) : res (matrix A) :=
           let* x3 := rd (sp_val self_) k_ in
           let* x4 := rd (sp_row_index self_) k_ in
           mset dense_ x4 j_ x3) dense_) dense_.
+
+(* src/sparse.rs : impl < T : Copy + Number + std :: fmt :: Debug > Sparse < T > :: fn insert *)
+Definition s_sp_insert (self_ : (sparse A)) (row_ : nat) (col_ : nat) (value_ : (T A)) : res (sparse A) :=
+  if ((sp_rows self_) <=? row_)%nat
+  then (Panic Guard)
+  else (if ((sp_cols self_) <=? col_)%nat
+       then (Panic Guard)
+       else (if ((length (sp_col_start self_)) <=? col_)%nat
+            then (Panic Guard)
+            else (let* col_index_ := sp_col_index self_ in
+                 let* o6 := for_ret 0 (sp_nonzero self_) (fun k_ (self_ : (sparse A)) =>
+                         let* x2 := rd (sp_row_index self_) k_ in
+                         let* c4 := if (x2 =? row_)%nat
+                             then (let* x3 := rd col_index_ k_ in
+                                  Ok (x3 =? col_)%nat)
+                             else (Ok false) in
+                         if c4
+                         then (let* b5 := upd (sp_val self_) k_ value_ in
+                              let self_ := (mkS (sp_rows self_) (sp_cols self_) (sp_nonzero self_) b5 (sp_row_index self_) (sp_col_start self_)) in
+                              Ok (inr self_))
+                         else (Ok (inl self_))) self_ in
+                 match o6 with
+                 | inl self_ => let* triplets_ := sp_to_triplets self_ in
+                     let triplets_ := (triplets_ ++ [(row_, col_, value_)]) in
+                     sp_from_triplets (sp_rows self_) (sp_cols self_) triplets_
+                 | inr r7 => Ok r7
+                 end))).
 
 End SrcSparse.
